@@ -94,7 +94,8 @@ def decState (j : Json) : Except String State := do
     clusters := ← decList (fun c => do pure (← J.getNat c "sh", ← J.getHex c "u", ← decList decSchema c "spec")) j "clusters",
     conds := ← decList decCond j "conds",
     fcs := ← decList decFC j "fcs",
-    listed := ← decList (fun c => do pure (← J.getHex c "u", ← decList decSchema c "schemas")) j "listed" }
+    listed := ← decList (fun c => do pure (← J.getHex c "u", ← decList decSchema c "schemas")) j "listed",
+    locks := ← J.getHexList j "locks" }
 
 /-! ### encoding -/
 
@@ -134,7 +135,8 @@ def encState (s : State) : Json :=
         (s.clusters.filter fun r => !r.2.2.isEmpty)),
     ("conds", encArr encCond s.conds),
     ("fcs", encArr encFC s.fcs),
-    ("listed", encArr (fun r : Ups × List Schema => J.obj [("u", J.hex r.1), ("schemas", encArr encSchema r.2)]) s.listed)]
+    ("listed", encArr (fun r : Ups × List Schema => J.obj [("u", J.hex r.1), ("schemas", encArr encSchema r.2)]) s.listed),
+    ("locks", J.hexList s.locks)]
 
 def encOut : Out → Json
   | .unit => J.obj [("k", Json.str "unit")]
